@@ -193,8 +193,7 @@ func (m *M) obs() []kv {
 		if len(enc) == 32 {
 			if v := new(big.Int).SetBytes(enc); v.Cmp(bigN) < 0 {
 				ref := secp256k1.NewScalar()
-				l := montLimbs(v, bigN)
-				copy(ref.S[:], l[:])
+				setScalar(ref, v)
 				seq[i] = s.Equal(ref)
 			}
 		}
@@ -259,6 +258,16 @@ func (m *M) summary() string {
 }
 
 // ---------------------------------------------------------------- helpers
+
+// setScalar stores the canonical integer v < n in s: by writing its Montgomery limbs when the scalar accessor is
+// available (no decoder involved), through Decode otherwise.
+func setScalar(s *secp256k1.Scalar, v *big.Int) {
+	if secp256k1.VerifScalarAccessor {
+		*secp256k1.VerifScalarLimbs(s) = montLimbs(v, bigN)
+		return
+	}
+	_ = s.Decode(be32(v))
+}
 
 func be32(v *big.Int) []byte { return v.FillBytes(make([]byte, 32)) }
 
